@@ -10,6 +10,7 @@ import (
 type Gen struct {
 	r            *RNG
 	proto        bool // ProtoCompatibleArrays is set on the instance the type is for
+	bigBodies    int  // two-megabyte boundary bodies generated so far
 	ptrSlices    bool // under proto: also generate fields that are pointers to slices of length-delimited elements
 	noProtoTag   bool // do not attach the proto tag option
 	finiteFloats bool // no NaN / Inf values
